@@ -182,6 +182,10 @@ func (c *ckptRun) sample(kind string, v any) {
 	}
 }
 
+// big: thorough-tier generator widths. Search runs (-search) are repeated by the runner with fresh seeds inside a
+// time budget, so each one uses the quick widths.
+func (c *ckptRun) big() bool { return c.o.Tier == "thorough" && !c.search }
+
 func (c *ckptRun) line(format string, a ...any) {
 	if c.search || c.t == nil {
 		return
@@ -689,7 +693,7 @@ func (c *ckptRun) signing() []*ckptSigned {
 		}
 	}
 	n := 30
-	if c.o.Tier == "thorough" || c.search {
+	if c.big() {
 		n = 600
 	}
 	for j := 0; j < n; j++ {
@@ -721,11 +725,11 @@ func (c *ckptRun) signing() []*ckptSigned {
 func (c *ckptRun) mutateVerify(sgs []*ckptSigned) {
 	k := c.keys
 	per := 3
-	if c.o.Tier == "thorough" || c.search {
+	if c.big() {
 		per = 12
 	}
 	for idx, sg := range sgs {
-		if idx%per != 0 && !(c.o.Tier == "thorough" || c.search) {
+		if idx%per != 0 && !c.big() {
 			continue
 		}
 		blob, text := sg.blob, sg.text
@@ -742,7 +746,7 @@ func (c *ckptRun) mutateVerify(sgs []*ckptSigned) {
 			case pos < 12:
 				class = "blob-length"
 			}
-			if class == "blob-sig-body" && pos%7 != idx%7 && !(c.o.Tier == "thorough" || c.search) {
+			if class == "blob-sig-body" && pos%7 != idx%7 && !c.big() {
 				continue
 			}
 			m := append([]byte(nil), blob...)
@@ -1020,7 +1024,7 @@ func (c *ckptRun) noteMutations(k *ckptKeys, sg, other *ckptSigned) {
 		} else if pos == sigStart-1 || pos == sigStart-2 {
 			class = "note-blank-line"
 		}
-		quick := !(c.o.Tier == "thorough" || c.search)
+		quick := !c.big()
 		if quick && (class == "note-other-sigline" || class == "note-sig-b64-body") && pos%23 != sel {
 			continue
 		}
@@ -1042,7 +1046,7 @@ func (c *ckptRun) noteMutations(k *ckptKeys, sg, other *ckptSigned) {
 // ---------------------------------------------------------------- primitives
 
 func (c *ckptRun) primitives() {
-	thorough := c.o.Tier == "thorough" || c.search
+	thorough := c.big()
 	n := 400
 	if thorough {
 		n = 20000
